@@ -128,6 +128,15 @@ def handleQ (j : Json) : Except String Json := do
           ("e", jopt jval (l.mag.error.map (fun e => e * f)))]
       else jstr "other"
     pure (Json.mkObj [("model", jexc (jqty env) (l.to env (BU.new t))), ("spec", spec)])
+  | "rebase" =>
+    -- `q.rebase()` : a change of units by a constant positive factor — same base value, same
+    -- absolute error in base dimensions (judged by the harness only when the merged units have
+    -- equal dimension vectors; the code keys on the dimension *names*)
+    let r := l.rebase env
+    pure (Json.mkObj [("model", jqty env r),
+      ("spec", withErr (Json.mkObj [("base", jval bl),
+        ("dims", jarr jrat (specDimVec env (l.units.map (fun p => (p.1, p.2.toRat)))))])
+        (errRule1 (l.baseMag env)))])
   | "newq" => do
     -- `Quantity(value, ref, abse)` : the unit is itself a (possibly uncertain) quantity `r`
     let r ← getQty (← field j "r")
